@@ -23,7 +23,10 @@ from checks import c14
 
 HARNESS = "seq_harness.cpp"
 LEDGER_FLAGS = core.SAN_FLAGS + ["-DVERIF_LEDGER"]
-ALL_ON = {"array_self_appc": True, "stream_self_shl": True, "string_stepback0": True}
+ALL_ON = {"array_self_appc": True, "stream_self_shl": True, "string_stepback0": True,
+          "array_alias_item": True, "stream_alias_write": True, "string_asg_own": True, "string_write_own": True}
+# first line of every run: shows whether String::operator=(const Char_T*) releases before it allocates
+FF_PROBE = "seq-string 1 ctoru:0:97;asgu:0:98"
 
 # programs that stress ownership transfer: self-assignment, self-append, moved-from use, adoption
 WITNESSES = [
@@ -46,22 +49,35 @@ def ledger_cases(ctx, policy="x"):
     exact-fit hook (core.SAN_FLAGS), 's' for a build without -DQENTEM_VERIF."""
     rng = ctx.rng
     T = ctx.thorough
-    lines = [l.replace(" x ", " %s " % policy, 1) if l.startswith("seq-stream") else l for l in WITNESSES]
+    # operations with the argument inside the container's own storage: only the families whose probe passes
+    # (a failing family is a use after release: reported here too, under the same key; its lines would end
+    # every batch)
+    flags = dict(ALL_ON)
+    exe = ctx.build_harness(HARNESS, tag="san_exact")
+    drv = core.driver_path()
+    import os
+    if exe and os.path.exists(drv):
+        flags.update(c14.alias_flags(ctx, exe, drv, report=True))
+    lines = [FF_PROBE]
+    lines += [l.replace(" x ", " %s " % policy, 1) if l.startswith("seq-stream") else l for l in WITNESSES]
+    for fkey, (flag, pl) in c14.ALIAS_PROBES.items():
+        if flags[flag]:
+            lines += [l for l in pl if not (l.startswith("seq-stream") and l.split(" ")[2] != policy)]
     lines += [l for l in c14.corpus_lines() if l.startswith("seq-") and not (l.startswith("seq-stream") and l.split(" ")[2] != policy)]
     # exhaustive depth 2 from a non-empty prologue, over the C14 alphabets
     for kind in ("i", "s"):
-        ex = c14.exhaustive(c14.array_alphabet(ALL_ON), 2 if not T else 3, ["push:0:1;push:0:2;push:1:3"])
+        ex = c14.exhaustive(c14.array_alphabet(flags), 2 if not T else 3, ["push:0:1;push:0:2;push:1:3"])
         if kind == "s":
             ex = [p for p in ex if "appm:0:0" not in p]
         lines += ["seq-array %s %s" % (kind, p) for p in ex]
-        lines += ["seq-array %s %s" % (kind, c14.gen_array(rng, rng.choice([5, 12, 30]), kind, ALL_ON)) for _ in range(800 if not T else 12000)]
+        lines += ["seq-array %s %s" % (kind, c14.gen_array(rng, rng.choice([5, 12, 30]), kind, flags)) for _ in range(800 if not T else 12000)]
     for w in ("1", "2", "4"):
-        sa = c14.string_alphabet(ALL_ON)
+        sa = c14.string_alphabet(flags)
         lines += ["seq-string %s %s" % (w, p) for p in c14.exhaustive(sa if w == "1" or T else sa[::2], 2, ["ctoru:0:32,97,98,32;ctoru:1:99"])]
-        lines += ["seq-string %s %s" % (w, c14.gen_string(rng, rng.choice([5, 12, 30]), w, ALL_ON)) for _ in range(600 if not T else 8000)]
-        ta = c14.stream_alphabet(ALL_ON)
+        lines += ["seq-string %s %s" % (w, c14.gen_string(rng, rng.choice([5, 12, 30]), w, flags)) for _ in range(600 if not T else 8000)]
+        ta = c14.stream_alphabet(flags)
         lines += ["seq-stream %s %s %s" % (w, policy, p) for p in c14.exhaustive(ta if w == "1" or T else ta[::2], 2, ["appu:0:0:97,98,99;pushch:0:1:100"])]
-        lines += ["seq-stream %s %s %s" % (w, policy, c14.gen_stream(rng, rng.choice([5, 12, 30]), w, ALL_ON)) for _ in range(600 if not T else 8000)]
+        lines += ["seq-stream %s %s %s" % (w, policy, c14.gen_stream(rng, rng.choice([5, 12, 30]), w, flags)) for _ in range(600 if not T else 8000)]
         lines += ["seq-view %s %s" % (w, c14.gen_view(rng, 8, w)) for _ in range(100)]
     return HARNESS, lines
 
@@ -106,13 +122,14 @@ def show(ev, sizes=True):
     return ",".join(("a%d:%d" % (i, s) if sizes else "a%d" % i) if k == "a" else "f%d" % i for k, i, s in ev)
 
 
-def model_line(line):
-    """The driver line that yields the model trace, or None when the container has no ledger model."""
+def model_line(line, ff=True):
+    """The driver line that yields the model trace, or None when the container has no ledger model.
+    `ff`: String::operator=(const Char_T*) releases its block before it allocates the new one."""
     t = line.split(" ")
     if t[0] == "seq-array" and t[1] in ("i", "s"):
         return "seqled-array %s %s" % (t[1], t[2])
     if t[0] == "seq-string":
-        return "seqled-string %s %s" % (t[1], t[2])
+        return "seqled-string %s%s %s" % (t[1], "f" if ff else "", t[2])
     if t[0] == "seq-stream":
         return "seqled-stream %s %s %s" % (t[1], t[2], t[3])
     return None
@@ -151,8 +168,13 @@ def compare_traces(ctx, lines, impl_out, drv, stream="seq-ledger", max_fail=20):
                 break
     ctx.count(stream + ":ledcheck-on-real-trace", len(real), len(set(lines[i] for i in idx)))
     # 2. model trace vs real trace
+    ff = True
+    for j in range(len(real)):
+        if lines[idx[j]] == FF_PROBE:
+            ff = show(real[j], sizes=False) != "a1,a2,f1,f2"
+            break
     mi = [j for j in range(len(real)) if model_line(lines[idx[j]])]
-    mlines = [model_line(lines[idx[j]]) for j in mi]
+    mlines = [model_line(lines[idx[j]], ff) for j in mi]
     mout, _ = core.run_lines_parallel(drv, mlines, jobs=12, env=None)
     impl_c, model_c = [], []
     for k, j in enumerate(mi):
